@@ -900,7 +900,7 @@ pub fn run_c10<H: HB>(tier: Tier) -> Outcome {
         // quick tier, deep seeds: the breadth families stay out of the fault layer (the thorough tier has them)
         fault_cfg.lean = q && deep;
         let big = cfg.k == 4;
-        let e3cfg = E3Cfg { prop, fault_cfg, cont_cfg, max_faults: if q || deep || big { 1 } else { 2 }, depth: if deep { 1 } else if q || big { 2 } else { 3 }, threads: threads(), max_states: if q { 3_000_000 } else { 40_000_000 }, max_wall_s: if q { 40.0 } else { 600.0 } };
+        let e3cfg = E3Cfg { prop, fault_cfg, cont_cfg, max_faults: if q || deep || big { 1 } else { 2 }, depth: if deep { 1 } else if q || big { 2 } else { 3 }, threads: threads(), max_states: if q { 3_000_000 } else { 40_000_000 }, max_wall_s: if q { 40.0 } else { 300.0 } };
         let e3 = E3::<H>::new(&e3cfg);
         let bases: Vec<FNode<H>> = nodes.iter().map(|n| FNode { q: None, base_q: std::sync::Arc::new(n.q.clone()), faults: 0, depth: 0, base: std::sync::Arc::new((n.root.0, n.root.1.clone(), n.ops())), trail: None }).collect();
         let t0 = Instant::now();
